@@ -15,6 +15,7 @@ import (
 	"fmt"
 	"strings"
 	"testing"
+	"time"
 
 	"verif/mc/enum"
 	"verif/mc/sched"
@@ -57,6 +58,7 @@ func (p *c15Proc) ForceFlush(context.Context) error {
 }
 
 type c15Exp struct {
+	slow     bool // ExportSpans has a scheduling point: the export takes time
 	l        *c15Log
 	exported int
 	shuts    int
@@ -76,6 +78,10 @@ func (e *c15Exp) ExportSpans(_ context.Context, s []ReadOnlySpan) error {
 		e.afterSD += len(s)
 	}
 	e.l.ev = append(e.l.ev, fmt.Sprintf("E.Export(%d)", len(s)))
+	if e.slow {
+		// the export takes time: other threads (and deadlines) may come in while it is in flight
+		sched.Yield("export-in-flight", e)
+	}
 	return nil
 }
 func (e *c15Exp) Shutdown(context.Context) error {
@@ -409,6 +415,9 @@ func c15ConcBody(sc c15Conc, res *string) func(x *sched.Exec) {
 		switch sc.variant {
 		case "simple(E)":
 			p1 = NewSimpleSpanProcessor(exp)
+		case "batch(Eslow)":
+			exp.slow = true
+			p1 = NewBatchSpanProcessor(exp)
 		case "batch(E)":
 			if sc.blockQ1 {
 				p1 = NewBatchSpanProcessor(exp, WithMaxQueueSize(1), WithMaxExportBatchSize(1), WithBlocking())
@@ -468,6 +477,14 @@ func c15ConcBody(sc c15Conc, res *string) func(x *sched.Exec) {
 						if tp.Shutdown(c) != nil {
 							cutShort = true
 						}
+					case "ShutdownD": // a deadline that may expire at any moment of the call (virtual time)
+						c, cancel := vctx.WithTimeout(context.Background(), time.Second)
+						if tp.Shutdown(c) != nil {
+							cutShort = true
+						} else {
+							outs[ti].nilSD++
+						}
+						cancel()
 					case "Unreg1":
 						tp.UnregisterSpanProcessor(p1)
 					case "Reg2":
@@ -490,9 +507,18 @@ func c15ConcBody(sc c15Conc, res *string) func(x *sched.Exec) {
 		for _, o := range outs {
 			nilShutdowns += o.nilSD
 		}
+		if sc.variant == "batch(Eslow)" {
+			// what the processor's own goroutines still do after a Shutdown that ran out of time: let them finish
+			for k := 0; k < 8; k++ {
+				sched.SpinYield()
+			}
+		}
 		n1 := rec1.shuts
 		if sc.variant != "rec" && sc.variant != "rec3" && sc.variant != "recY" {
 			n1 = exp.shuts
+		}
+		if cutShort && sc.variant == "batch(Eslow)" && nilShutdowns == 0 && n1 > 1 {
+			x.Fail("C15|shut-down-more-than-once|exporter, by a Shutdown whose deadline expired during the drain", "exporter shut down %d times (events %v)", n1, l.ev)
 		}
 		if sc.variant == "recY" {
 			// membership after the join: every Register / Unregister has returned, so one more span
@@ -581,7 +607,8 @@ func c15ConcJobs(thorough bool) []c15Conc {
 		{2, 0, "X4-blocking-batch-end-end-shutdown", "batch(E)", [][]string{{"End"}, {"End"}, {"Shutdown"}}, true},
 		{1, 1, "X5-batch-shutdown-unreg", "batch(E)", [][]string{{"Shutdown"}, {"Unreg1"}, {"End"}}, false},
 		{2, 0, "X8-unreg-first-of-three-during-end", "rec3", [][]string{{"Unreg1"}, {"End"}, {"Span"}}, false},
-		{1, 1, "X11-batch-flush-shutdown", "batch(E)", [][]string{{"End", "Flush"}, {"Shutdown"}}, false}, // no call blocks forever
+		{1, 1, "X11-batch-flush-shutdown", "batch(E)", [][]string{{"End", "Flush"}, {"Shutdown"}}, false},    // no call blocks forever
+		{1, 1, "X13-slow-export-shutdown-deadline", "batch(Eslow)", [][]string{{"End", "ShutdownD"}}, false}, // the deadline ends inside the drain's export
 		{2, 0, "X9-register-during-unregister", "recY", [][]string{{"Unreg1"}, {"Reg2"}}, false},
 		{2, 0, "X10-two-registers-during-unregister", "recY", [][]string{{"Unreg1"}, {"Reg2"}, {"Reg3"}}, false},
 	}
